@@ -488,7 +488,21 @@ class LinAI:
             c = blk.get("cond")
             if c is None or len(blk["succ"]) != 2 or blk.get("tk") == "SwitchStmt":
                 return sts
-            out = norm([self.cond(st, c, k == 0) for st in sts])
+            def conds(st, cn, truth, depth=0):
+                """states on the edge: a disjunction known true (`!(grow || buffer)` false) splits into its cases"""
+                if st is None:
+                    return []
+                x = f.strip(cn)
+                n_ = f.nodes[x]
+                if depth < 4 and n_["k"] == "UnaryOperator" and n_.get("op") == "!" and n_["c"]:
+                    return conds(st, n_["c"][0], not truth, depth + 1)
+                if depth < 4 and n_["k"] == "BinaryOperator" and n_.get("op") in ("||", "&&") and (n_["op"] == "||") == bool(truth):
+                    a_, b_ = n_["c"]
+                    first = conds(st, a_, truth, depth + 1)
+                    rest = [s2 for s1 in conds(st, a_, not truth, depth + 1) for s2 in conds(s1, b_, truth, depth + 1)]
+                    return first + rest
+                return [self.cond(st, cn, truth)]
+            out = norm([s_ for st in sts for s_ in conds(st, c, k == 0)])
             return out if out else None
 
         def join(a, b):
